@@ -2,9 +2,20 @@
 every file-system operation (and each half of every write) is a scheduling point (harness/fsgate.py in 'sched' mode).
 stdin: {"scenario": {...}, "schedules": [[tid, tid, ...], ...]}  ->  one result per schedule.
 A schedule lists which thread performs the next file-system operation; when it is exhausted (or names a finished
-thread) the remaining threads run to completion one after the other."""
+thread) the remaining threads run to completion one after the other.
+
+A process obtains its store object either by building it (["init", internal, data]) or by INHERITING the one its parent
+built before the processes were started (["inherit", how]): the optional scenario["parent"] program is run (not
+scheduled, under the parent's pid) before the processes exist, and at the moment of the "fork" every inheriting process
+receives its private image of the parent's store object:
+    how = "fork"   copy.deepcopy            (the memory image of a forked child)
+    how = "spawn"  pickle round trip         (multiprocessing with the spawn / forkserver start method, Pool arguments)
+    how = "self"   the parent's object itself (the parent goes on working next to its children; keeps the parent's pid)
+Whatever a store object captured when it was constructed or used by the parent is then common to several processes."""
+import copy
 import json
 import os
+import pickle
 import shutil
 import sys
 import tempfile
@@ -55,7 +66,45 @@ class Ctl(object):
         return self.wait_settled(who) is not None
 
 
-def worker(ctl, who, root, prog, values, out):
+PARENT_PID = os.getpid()
+PIDS = {}                # simulated process -> pid seen by os.getpid() (see main)
+
+
+def inherit(base, how):
+    """The image of the parent's store object that a process started now works with."""
+    if base is None:
+        raise ValueError("scenario without a parent store")
+    if how == "fork":
+        return copy.deepcopy(base)
+    if how == "spawn":
+        return pickle.loads(pickle.dumps(base))
+    if how == "self":
+        return base
+    raise ValueError(how)
+
+
+def run_parent(root, prog, values):
+    """The parent's program, before any process is started (thread 'None': not scheduled).  Returns its store object."""
+    from dds.store import LocalFileStore
+    store = None
+    for act in prog:
+        if act[0] == "init":
+            store = LocalFileStore(os.path.join(root, act[1]), os.path.join(root, act[2]))
+        elif act[0] == "keep":
+            _, key, path = act
+            if not store.has_blob(key):
+                store.store_blob(key, values[key], None)
+            store.sync_paths(OrderedDict([(path, key)]))
+            if store.fetch_blob(key) != values[key]:
+                raise RuntimeError("parent: keep returned a wrong value")
+        elif act[0] == "load":
+            store.fetch_blob(store.fetch_paths([act[1]]).get(act[1]))
+        else:
+            raise ValueError(act[0])
+    return store
+
+
+def worker(ctl, who, root, prog, values, out, inherited=None):
     fsgate.set_thread(who)
     from dds.store import LocalFileStore
     from dds.structures import DDSException
@@ -68,6 +117,9 @@ def worker(ctl, who, root, prog, values, out):
                 if a == "init":
                     store = LocalFileStore(os.path.join(root, act[1]), os.path.join(root, act[2]))
                     res.append("U")
+                elif a == "inherit":
+                    store = inherited
+                    res.append("I")
                 elif a == "keep":
                     # what dds does at the store interface for one kept node: probe, (compute,) store, commit, read back
                     _, key, path = act
@@ -97,7 +149,26 @@ def run_one(scenario, schedule, tear):
     fsgate.install([root], mode="sched", sched=ctl.gate)
     fsgate.STATE["tear"] = tear
     out = [None] * n
-    threads = [threading.Thread(target=worker, args=(ctl, i, root, scenario["procs"][i], scenario["values"], out), daemon=True) for i in range(n)]
+    PIDS.clear()
+    inherited = [None] * n
+    parent_error = None
+    try:
+        base = run_parent(root, scenario["parent"], scenario["values"]) if scenario.get("parent") else None
+        # the "fork": every inheriting process gets its image of the parent's store now, before any process runs
+        for i, prog in enumerate(scenario["procs"]):
+            hows = [act[1] for act in prog if act[0] == "inherit"]
+            if hows:
+                inherited[i] = inherit(base, hows[0])
+                if hows[0] == "self":
+                    PIDS[i] = PARENT_PID
+    except BaseException as e:  # noqa: the parent could not even build / use / hand over its store
+        parent_error = type(e).__name__ + ":" + str(e)[:80]
+    if parent_error is not None:
+        fsgate.STATE["mode"] = "off"
+        shutil.rmtree(root, ignore_errors=True)
+        return {"out": [["X:" + parent_error]] * n, "final": {}, "n_ops": 0, "ops_per_thread": [0] * n, "parent_error": parent_error}
+    threads = [threading.Thread(target=worker, args=(ctl, i, root, scenario["procs"][i], scenario["values"], out, inherited[i]), daemon=True)
+               for i in range(n)]
     for t in threads:
         t.start()
     for i in range(n):
@@ -136,10 +207,12 @@ def main():
     # each simulated process has its own pid (the store derives the names of its temporaries from os.getpid(), and code
     # may treat "other pids" specially)
     real_getpid = os.getpid
+    global PARENT_PID
+    PARENT_PID = real_getpid()
 
     def fake_getpid():
         who = getattr(fsgate._tls, "who", None)
-        return real_getpid() if who is None else 700000 + who
+        return PARENT_PID if who is None else PIDS.get(who, 700000 + who)
     os.getpid = fake_getpid
     payload = json.load(sys.stdin)
     from dds.codec import codec_registry
